@@ -22,10 +22,10 @@ impl Case {
     }
 }
 
+/// Equal up to rounding of the substitution itself (an implementation may form `q[c] - s*q[d]` in another order).
 fn bits_eq(a: &nalgebra::Isometry3<f64>, b: &nalgebra::Isometry3<f64>) -> bool {
-    let (ta, tb) = (a.translation.vector, b.translation.vector);
-    let (qa, qb) = (a.rotation.quaternion().coords, b.rotation.quaternion().coords);
-    (0..3).all(|i| ta[i].to_bits() == tb[i].to_bits()) && (0..4).all(|i| qa[i].to_bits() == qb[i].to_bits())
+    let (dp, da) = pose_dist(&from_na(a), &from_na(b));
+    dp <= 1e-12 && da <= 1e-12
 }
 
 pub fn eval(c: &Case) -> (Vec<(String, String)>, String) {
@@ -170,7 +170,7 @@ pub fn run(ctx: &Ctx) -> Report {
     });
     rep.traces_validated = rep.transitions;
     rep.rule = "all 30 ordered (driven != coupled) pairs x scalings {-2,-1,-.5,0,.5,1,2} x stack variants {P, P under a second P (6 pairs), tool under P, \
-                P under base, P under a generic tool} x robots (dof 5/6) x joint vectors; oracle: forward and link poses bit-equal to the inner robot at the \
+                P under base, P under a generic tool} x robots (dof 5/6) x joint vectors; oracle: forward and link poses equal (1e-12) to the inner robot at the \
                 substituted joint vector, equal to the composed reference, every answer of the four inverse entry points maps back onto the request; \
                 signature = (stack shape, answers)".into();
     rep.set("axes", json!({"pairs": pairs.len(), "scalings": scalings.len(), "stack_variants": n_var, "robots": robots.len(), "joint_vectors": thetas.len()}));
